@@ -559,7 +559,7 @@ def access_once(ctx, d, records, width, exfiles, min_gap, skip, extra_sub=None):
     if isinstance(res, Exc):
         ctx.violation(
             "do_access reports the accessible regions of any FASTA file",
-            f"do_access/raises/{res.key}/{exclude_feature(exfiles)}",
+            "do_access/inherited-from-get_regions" if scanner_wrong(fa, records) else f"do_access/raises/{res.key}/{exclude_feature(exfiles)}",
             expected="a region table",
             observed=res,
             sub=sub,
@@ -711,7 +711,7 @@ def run_cli(case, ctx, d):
             if isinstance(rows, Exc):
                 ctx.violation(
                     "the access command writes the accessible regions of any FASTA file",
-                    f"access-cli/raises/{rows.key}/{exclude_feature(files)}",
+                    "access-cli/inherited-from-get_regions" if scanner_wrong(fa, recs) else f"access-cli/raises/{rows.key}/{exclude_feature(files)}",
                     expected="a BED file",
                     observed=rows,
                     sub=sub,
